@@ -21,6 +21,22 @@ CLAIMS = {
    text="Proof, for every clock reading including the instant t == expire_time, every ttl (None, zero, negative, any real) and every table content, that each site named in the property (get, __contains__, pop, __delitem__/delete, touch, add, incr, set) treats an item as live exactly when it has no expiry or t < expire_time, stores expire_time = entry reading + ttl (NULL without ttl), and that the lazy removal done by writes removes only rows with expire_time < now and at most cull_limit of them (parts refine.cull.* of the write obligations). expire() (any number of items sharing an expiry time, more than a page), pull/peek/peekitem and FanoutCache.expire are covered by the bounded native stand-in only.",
    note=TRUST + "Same model and trusted base as C03; floats in clock arithmetic are reals; reading of the boundary: invisible from t == expire_time on, expire()/cull required to remove rows with expire_time < now.",
    tech="contract-based deductive verification (shared refinement obligations of c03 under the C04 view); bounded native stand-in for expire()/queue operations"),
+ 'C05': dict(
+   text="Proof of the sufficient conditions for atomicity, on every path (all fault outcomes, outermost and nested entry) of set, add, touch, incr, pop, __delitem__, delete, get, __contains__ executed from /repo: once an operation writes, every table statement it executes lies inside one BEGIN IMMEDIATE ... COMMIT section (never a deferred BEGIN); a value file that existed before the operation is removed only after the commit that dropped its reference; a lookup whose value file has vanished reports a miss and raises nothing. The nested-block cleanup defect is a recorded finding (residual: all outermost paths proved).",
+   note=TRUST + "A-SQL-iso (a BEGIN IMMEDIATE..COMMIT section is atomic and isolated) is the rely condition and is never proved; no interleaving is executed: linearisability is a paper argument from these obligations. push/pull/peek, bulk removals and iteration are not yet under contract.",
+   tech="contract-based deductive verification: effect-trace obligations over symbolically executed method bodies (atomic section, lock discipline, file ordering)"),
+ 'C06': dict(
+   text="Proof, on every path of the mutating methods executed from /repo through the real _transact generator: a block entered by the thread that already owns the transaction executes no BEGIN/COMMIT/ROLLBACK and keeps the owner; an outermost block ends with exactly one COMMIT (normal exit) or ROLLBACK (any exception from the body, including KeyboardInterrupt), clears the owner, re-raises, and after a rollback the table view equals the view at entry (z3). Recorded finding: files of replaced/removed items are deleted at inner-block exit.",
+   note=TRUST + "Isolation and 'visible at once' are A-SQL-iso; FanoutCache.transact (ExitStack) and Deque/Index.transact delegation are not yet under contract.",
+   tech="contract-based deductive verification: trace obligations + rollback-restores-view VCs on the real _transact body"),
+ 'C07': dict(
+   text="Proof, at every COMMIT point of every path of the mutating methods, that each committed file-backed row names an existing, completely written file of the recorded size (crash invariant at the commit points, z3), that pre-existing value files are removed only after the commit that unreferences them (so a kill between any two Python-level effects leaves committed references intact), that a completed call has committed, and that value files are created exclusively. Same recorded finding as C06 for nested blocks.",
+   note=TRUST + "Kills inside SQLite or inside a libc write, lock release on process death and durability are A-SQL-iso / OS behaviour; Disk.store's contract (file complete and closed before it returns) is proved in C01.",
+   tech="contract-based deductive verification: crash-invariant VCs at commit points + effect ordering obligations"),
+ 'C08': dict(
+   text="Proof, on every normal and exceptional exit of the mutating methods (every statement may fail, store may fail before or after creating its file, lock may be busy): count and size counters equal the recomputed values (triggers parsed from the source), every value file reference dropped by a committed UPDATE/DELETE is followed by removal of that file, rows removed by culling have their files scheduled, and every file created by the call is referenced by a committed row or removed. The last clause fails on exits by an exception raised after the file was created (recorded finding, natively reproduced); the residual (normal exits and Timeout exits) is proved.",
+   note=TRUST + "Bulk removal, queue operations, concurrency and check() itself are not yet under contract for this property.",
+   tech="contract-based deductive verification: trace obligations quantified over all raising outcomes of every environment call"),
  'C09': dict(
    text="Proof, per eviction policy and for symbolic cull_limit, size_limit, page_count and table contents, that one write (set/add/incr) removes at most cull_limit rows in total and none when it is 0, that rows selected by the policy query are removed only when volume() >= size_limit, never under policy 'none', and that every evicted row sorts before-or-equal every remaining row in the policy's column; that get and incr refresh access_time / access_count exactly as the policy table promises. cull() and per-shard limits of FanoutCache are covered by the bounded native stand-in only.",
    note=TRUST + "PRAGMA page_count is an opaque non-negative integer; A-SQL-det (DELETE ... IN (identical ordered-limit SELECT) deletes the rows of that SELECT); same table model as C03.",
@@ -29,6 +45,10 @@ CLAIMS = {
    text="Proof, for every key and every shard count n>=1 (symbolic), that each key-addressed FanoutCache method makes exactly one call, on shard hash(key) % n, to the same-named Cache method with arguments matched by Cache's real parameter names, and maps result/Timeout as documented; aggregate methods cover every shard exactly once (loop invariants over a symbolic-length shard tuple; totals include counts carried by Timeout); Disk.hash equals the released routing function, is a pure function of the key, and respects key equality except for the two recorded findings (int/float, signed zero) whose residuals are proved.",
    note=TRUST + "Cache methods are represented by recorders with the outcome lists in contracts/fanout_common.py (assumed callee contracts); adler32 is uninterpreted (replays confirm refutations). Per-shard behaviour equal to an unsharded cache is the composition with C03 (not re-proved here).",
    tech="contract-based deductive verification: symbolic execution of FanoutCache/Disk.hash bodies, delegate obligations, inductive loop invariants, z3"),
+ 'C14': dict(
+   text="Proof for set, add, touch, incr, pop, __delitem__, delete, get: on the Timeout exit the tables and the set of files are exactly as at entry (the just-written value file is removed), no write statement has executed, and the exit is infeasible when retry is true (partial correctness: if it returns the lock was held); get/__contains__ with statistics off and a non-recording policy never BEGIN; operator forms pass retry=True; every key-addressed FanoutCache method maps a shard's Timeout to the documented return value and never propagates it.",
+   note=TRUST + "How long SQLite waits is not modelled, only the outcome 'BEGIN raised'; bulk removals' Timeout(count) and DjangoCache retry defaults (see C19) are not part of this check yet; 'then succeeds' is liveness.",
+   tech="contract-based deductive verification: raises-clauses on the symbolic table model, delegate obligations for FanoutCache"),
  'C16': dict(
    text="Proof that core.args_to_key, executed from /repo for argument tuples and keyword dictionaries of any size (symbolic z3 sequences, inductive loop invariant over the sorted items), returns base ++ args ++ [None] ++ flattened sorted items (++ types when typed); from that structure z3 plus the Lean-checked lemma flat_inj prove that calls with different arguments get different keys (different function names, no keywords, equal positional arity, positional vs keyword), and that the typed key extends the untyped one. The memoize wrappers of Cache, DjangoCache and memoize_stampede (incl. its early recomputation thread) are executed against recorder cache/function objects: lookup with ENOVAL default, exactly one call with the caller's arguments on a miss, result returned, stored iff the expiry allows, nothing called on a hit; Index.memoize delegates; FanoutCache.memoize is Cache.memoize. The positional-None/separator collision is a recorded finding with a proved residual.",
    note=TRUST + "The wrapped function is deterministic (requires); key identity is type-and-structure (A-PICKLE-canon); keyword names are text; ignore sets other than () are covered only by a bounded enumeration (arity <= 3), listed under coverage.bounded and not counted as proved. The Lean lemma is checked by setup_cmd; without it the obligation using it is reported undecided.",
